@@ -49,7 +49,7 @@ M = [
  ("c06-short-read-for-key", "C06", "service/tcp.go", "\tfirstBytes := make([]byte, bytesForKeyFinding)", "\tfirstBytes := make([]byte, bytesForKeyFinding-16)"),
  # ---- C07
  ("c07-archive-reset", "C07", "service/replay.go", "\t\tc.archive = c.active\n", "\t\tc.archive = make(map[uint32]empty)\n"),
- ("c07-rotate-early", "C07", "service/replay.go", "if len(c.active) >= c.capacity {", "if len(c.active) >= c.capacity-1 {"),
+ ("c07-rotate-early", "C07", "service/replay.go", "if len(c.active) >= c.capacity {", "if len(c.active) >= c.capacity-2 {"),
  ("c07-per-service-cache", "C07", "cmd/outline-ss-server/main.go", "\t\t\t\t\tservice.WithReplayCache(&s.replayCache),\n\t\t\t\t\tservice.WithLogger(slog.Default()),\n\t\t\t\t)\n\t\t\t\tif err != nil {", "\t\t\t\t\tservice.WithReplayCache(func() *service.ReplayCache { c := service.NewReplayCache(10); return &c }()),\n\t\t\t\t\tservice.WithLogger(slog.Default()),\n\t\t\t\t)\n\t\t\t\tif err != nil {"),
  ("c07-resize-clears", "C07", "service/replay.go", "\tc.capacity = capacity\n", "\tc.capacity = capacity\n\tc.active = make(map[uint32]empty)\n"),
  ("c07-accept-archive-hit", "C07", "service/replay.go", "\treturn !inArchive\n", "\treturn true || !inArchive\n"),
